@@ -43,6 +43,8 @@ pub struct PathOutcome {
     pub log: Vec<IoEv>,
     /// For each op index: log position at op begin/end (only with log_io).
     pub final_model: Option<Model>,
+    /// model contents after each operation (only with log_io)
+    pub snapshots: Vec<std::collections::BTreeMap<Vec<u8>, crate::model::Gen>>,
     pub image: Option<Vec<u8>>,
 }
 
@@ -267,10 +269,14 @@ fn readback_ops(s: &Suite) -> Vec<Op> {
 }
 
 fn create_sut(s: &Suite, cfg: Cfg, tag: &str) -> Result<Sut, String> {
+    create_sut_logged(s, cfg, tag, false).map(|(s, _)| s)
+}
+
+fn create_sut_logged(s: &Suite, cfg: Cfg, tag: &str, log: bool) -> Result<(Sut, Vec<u8>), String> {
     // Keys of the alphabet must map to pairwise distinct version-clock shards so that
     // automatic timestamps are a deterministic function of the history.
     for _ in 0..200 {
-        let sut = Sut::create(cfg, tag)?;
+        let (sut, base) = Sut::create_logged(cfg, tag, log)?;
         let mut shards: Vec<usize> = s
             .tables
             .keys
@@ -282,7 +288,7 @@ fn create_sut(s: &Suite, cfg: Cfg, tag: &str) -> Result<Sut, String> {
         shards.sort();
         shards.dedup();
         if shards.len() == n {
-            return Ok(sut);
+            return Ok((sut, base));
         }
     }
     Err("could not build a store with distinct clock shards for the alphabet keys".into())
@@ -292,18 +298,19 @@ fn create_sut(s: &Suite, cfg: Cfg, tag: &str) -> Result<Sut, String> {
 /// prefix (all but the last op) produced when it was first explored.
 pub fn run_path(s: &Suite, hist: &[u16], parent_outs_hash: Option<u64>, verbose: bool) -> PathOutcome {
     let mut po = PathOutcome::default();
-    let mut sut = match create_sut(s, s.cfg, "seq") {
-        Ok(s) => s,
+    let mut sut = match create_sut_logged(s, s.cfg, "seq", s.log_io) {
+        Ok((sut, base)) => {
+            if s.log_io {
+                // the log starts before the store first touches the device
+                po.image = Some(base);
+            }
+            sut
+        }
         Err(e) => {
             po.machinery = Some(e);
             return po;
         }
     };
-    if s.log_io {
-        // the log starts after device creation: the base image is read from the file
-        po.image = sut.path.as_ref().and_then(|p| std::fs::read(p).ok());
-        sut.sess.log_enabled.store(true, Ordering::SeqCst);
-    }
     let mut shadow = match s.shadow {
         Some(cfg) => match create_sut(s, cfg, "shadow") {
             Ok(s) => Some(s),
@@ -366,6 +373,9 @@ pub fn run_path(s: &Suite, hist: &[u16], parent_outs_hash: Option<u64>, verbose:
             }
         }
         let verdict = model.step(&s.tables, &op, &out, ts);
+        if s.log_io {
+            po.snapshots.push(model.map.clone());
+        }
         po.outs.push(out);
         po.ts.push(ts);
         if let Err(e) = verdict {
